@@ -12,6 +12,12 @@
   * IsoQuant-style ids in the annotation (`novel_gene_<chr>_<N>`, `transcript<N>.<chr>.nnic`, small N that differ
     between chromosomes): what a reference produced by an earlier IsoQuant run looks like; the numbers are
     reserved by `ExcludingIdDistributor` per chromosome;
+  * at identical coordinates on every chromosome an intergenic spliced read cluster whose introns are canonical on
+    the `+` strand on every second chromosome and on the `-` strand on the others (a strand looked up for
+    `(start, end)` on one chromosome is wrong on the next);
+  * a one-transcript gene per chromosome hit by the secondary alignments of multi-mapped reads whose primary alignment
+    is intergenic: exon skipping on one chromosome, intron retention on another (inconsistent alignments with different
+    penalties, no consistent one);
   * reads named `<id>_<group>` for `--read_group read_id:_` with 3-5 group labels, polyA tails;
   * multimappers: secondary alignments of the same read name on another chromosome and on the same one.
 Everything random comes from the `random.Random` passed in.
@@ -46,11 +52,16 @@ def build(rng, n_chroms=3, reads_per_tx=6, chrom_names=None):
         rid[0] += 1
         return "r%d_%s" % (rid[0], rng.choice(groups))
 
-    lengths = rng.sample(range(52000, 82000, 1000), len(names))
+    lengths = rng.sample(range(62000, 92000, 1000), len(names))
     loci = {}
+    inc = {}
     for ci, chrom in enumerate(names):
         ds.add_chrom(chrom, lengths[ci])
-        pos = 800
+        # 0. same coordinates on every chromosome, canonical splice sites on alternating strands, no annotation
+        strand0 = "+" if ci % 2 == 0 else "-"
+        ex0 = [(300, 520), (900, 1130), (1500, 1760), (2100, 2350)]
+        ds.plant_sites(chrom, [(ex0[i][1] + 1, ex0[i + 1][0] - 1) for i in range(len(ex0) - 1)], strand0)
+        pos = 3400
         tag = chrom.replace("chr", "c")
         loci[chrom] = []
 
@@ -69,6 +80,13 @@ def build(rng, n_chroms=3, reads_per_tx=6, chrom_names=None):
                                    polyt=tail if strand == "-" else 0, **kw)
                 out.append((nm, e))
             return out
+
+        for _ in range(reads_per_tx + 2):
+            e = list(ex0)
+            e[0] = (e[0][0] + rng.randint(0, 20), e[0][1])
+            e[-1] = (e[-1][0], e[-1][1] - rng.randint(0, 20))
+            ds.read_from_exons(rname(), chrom, e)          # no tails: the strand comes from the splice sites alone
+        meta["same_coordinate_introns"] = meta.get("same_coordinate_introns", 0) + 1
 
         # 1. multi-isoform gene
         strand = rng.choice("+-")
@@ -145,6 +163,13 @@ def build(rng, n_chroms=3, reads_per_tx=6, chrom_names=None):
         reads_for(nov, strand, reads_per_tx + 2, trunc=False)
         meta["tied_gene_loci"] = meta.get("tied_gene_loci", 0) + 1
         pos = pos2 + 1000
+
+        # 8. one-transcript gene for inconsistent secondary alignments + an empty stretch for intergenic primaries
+        ex, pos2 = _exons(rng, pos + 1000, 4)
+        ds.add_gene(chrom, "G%s_inc" % tag, "+", [("T%s_inc" % tag, ex)])
+        reads_for(ex, "+", 4, trunc=False)
+        inc[chrom] = (ex, (pos2 + 300, pos2 + 900))
+        pos = pos2 + 1800
         assert pos < lengths[ci] - 500, (pos, lengths[ci])
 
     # multimappers: same read name aligned to loci of two chromosomes / two loci of one chromosome
@@ -164,6 +189,18 @@ def build(rng, n_chroms=3, reads_per_tx=6, chrom_names=None):
             if (c3, e3) not in ((c1, e1), (c2, e2)):
                 ds.read_from_exons(nm, c3, list(e3), flag=256, mapq=0)
         meta["multimappers"] += 1
+    # multi-mapped reads without a consistent alignment: intergenic primary, secondaries skip an exon of one gene and
+    # retain an intron of another (different penalties)
+    for k in range(rng.randint(2, 4)):
+        ca, cb = rng.sample(names, 2)
+        cp = rng.choice(names)
+        nm = "mi%d_%s" % (k, rng.choice(groups))
+        ea, eb = inc[ca][0], inc[cb][0]
+        ds.read_from_exons(nm, cp, [inc[cp][1]], flag=0, mapq=rng.choice([1, 60]))
+        # (inconsistent alignments below --inconsistent_mapq_cutoff are ignored: the secondaries carry a high MAPQ)
+        ds.read_from_exons(nm, ca, [ea[0], ea[2], ea[3]], flag=256, mapq=60)
+        ds.read_from_exons(nm, cb, [eb[0], (eb[1][0], eb[2][1]), eb[3]], flag=256, mapq=60)
+        meta["inconsistent_multimappers"] = meta.get("inconsistent_multimappers", 0) + 1
     # a read without the group delimiter (falls back to NA) and an unmapped read
     ds.read_from_exons("nodelim", names[0], list(loci[names[0]][0][0]))
     ds.add_read("unm_%s" % groups[0], names[0], 0, "", flag=4)
